@@ -714,6 +714,25 @@ pub fn cases(prop: &str, thorough: bool, seed: u64, c: &mut Cases) {
             }
         }
         "C02" | "C03" | "C09" => cases_sixseven(c, &mut rng, thorough),
+        "C08" => {
+            let sym = deck_blank();
+            for w in sym {
+                c.emit("acc/53-words (shift_suit, next_suit, rank)", &format!("acc {w}"));
+            }
+            for m in 0u32..8192 {
+                for su in [1u32, 2, 4, 8] {
+                    c.emit("acc/rank-field x suit bit", &format!("acc {}", (m << 16) | (su << 12)));
+                }
+            }
+            for n in 2..=7usize {
+                for _ in 0..(if thorough { 50_000 } else { 5_000 }) {
+                    let ws: Vec<u32> = (0..n).map(|_| sym[rng.below(53) as usize]).collect();
+                    c.emit(&format!("shift{n}/card-or-blank"), &format!("shift {}", join(&ws)));
+                }
+                let ws: Vec<u32> = (0..n).map(|_| rng.next() as u32).collect();
+                c.emit(&format!("shift{n}/arbitrary-words"), &format!("shift {}", join(&ws)));
+            }
+        }
         "C04" => {
             for (kind, h) in c04_hands(&mut rng, thorough) {
                 c.emit(&format!("val{}/{kind}", h.len()), &format!("val {}", join(&h)));
@@ -913,6 +932,7 @@ pub fn sweep(prop: &str, thorough: bool, seed: u64) -> Sweep {
         "C13" => sweep_c13(seed, thorough),
         "C05" => sweep_c05(seed, thorough),
         "C06" => sweep_c06(),
+        "C08" => sweep_c08(seed, thorough),
         "C04" => sweep_c04(seed, thorough),
         "C02" | "C03" | "C09" => sweep_sixseven(prop, seed, thorough),
         "C07" => sweep_c07(seed, thorough),
@@ -2007,5 +2027,114 @@ fn sweep_c04(seed: u64, thorough: bool) -> Sweep {
     s.rule = "hands of sizes 2..7 over {52 cards, blank, single-bit corruptions, flagged cards, 0xFFFFFFFF, small integers}: a duplicate planted at every slot pair, a near-miss at every slot, seeded arrangements and arbitrary words; validators and validated ranking against membership in the 52 layout words and pairwise inequality; the recogniser over all 2^32 words; non-trivial = the hand is not valid".into();
     s.sample(format!("[JC 2C 23 KS TS] valid = {:?}", guarded(|| Five::from([deck[48], deck[51], 23, deck[1], deck[4]]).is_valid())));
     s.sample(format!("five_cards([JC 2C 3C KS JC]) = {:?}", guarded(|| ckc_rs::evaluate::five_cards([deck[48], deck[51], deck[50], deck[1], deck[48]]))));
+    s
+}
+
+/// all 24 permutations of the four suits
+fn suit_perms() -> Vec<[u32; 4]> {
+    let mut out = Vec::new();
+    for a in 0..4 { for b in 0..4 { for c in 0..4 { for d in 0..4 {
+        if a != b && a != c && a != d && b != c && b != d && c != d { out.push([a, b, c, d]); }
+    } } } }
+    out
+}
+
+/// C08: the 4-cycle on 53 words, slot-wise container shift, and value invariance.
+fn sweep_c08(seed: u64, thorough: bool) -> Sweep {
+    let mut s = Sweep { exhaustive: true, ..Default::default() };
+    let deck = layout_deck();
+    for rank in 0u32..13 {
+        for suit in 0u32..4 {
+            let w = layout_word(rank, suit);
+            s.evaluations += 1;
+            let want = layout_word(rank, (suit + 3) % 4);
+            let got = w.shift_suit();
+            let four = w.shift_suit().shift_suit().shift_suit().shift_suit();
+            if got != want || four != w {
+                s.fail("shift_suit is not the rank-preserving cycle S->H->D->C->S", &w.to_string(), &format!("{want}, four shifts {w}"), &format!("{got}, four shifts {four}"));
+            }
+        }
+    }
+    if 0u32.shift_suit() != 0 {
+        s.fail("shifting blank", "0", "0", &0u32.shift_suit().to_string());
+    }
+    let sym = deck_blank();
+    let mut rng = Rng::new(seed ^ 0xC08);
+    for n in 2..=7usize {
+        for _ in 0..20_000 {
+            let ws: Vec<u32> = (0..n).map(|_| sym[rng.below(53) as usize]).collect();
+            s.evaluations += 1;
+            let got = H::mk(&ws).unwrap().shifted();
+            let want: Vec<u32> = ws.iter().map(|w| w.shift_suit()).collect();
+            if got != want {
+                s.fail(&format!("shifting a {n}-slot hand is not slot-wise"), &join(&ws), &join(&want), &join(&got));
+            }
+        }
+    }
+    // five cards: every hand, three shifts (and all 24 relabellings in thorough)
+    let perms = suit_perms();
+    let parts: Vec<Sweep> = par_ranges(48, 48, |lo, hi| {
+        let mut p = Sweep::default();
+        for a in lo as usize..hi as usize {
+            for b in a + 1..52 { for c in b + 1..52 { for d in c + 1..52 { for e in d + 1..52 {
+                let idx = [a, b, c, d, e];
+                let h = Five::from([deck[a], deck[b], deck[c], deck[d], deck[e]]);
+                let Some(v) = guarded(|| h.hand_rank_value()) else { p.fail("ranking panics", &join(h.to_arr()), "a value", "panic"); continue; };
+                let mut x = h;
+                for k in 1..4 {
+                    x = x.shift_suit();
+                    p.evaluations += 1;
+                    if guarded(|| x.hand_rank_value()) != Some(v) {
+                        p.fail(&format!("value changes after {k} shift(s)"), &join(h.to_arr()), &v.to_string(), &format!("{:?}", guarded(|| x.hand_rank_value())));
+                    }
+                }
+                if thorough {
+                    for sp in &perms {
+                        let arr: Vec<u32> = idx.iter().map(|i| layout_word(12 - (*i as u32 % 13), sp[(3 - i / 13) as usize])).collect();
+                        p.evaluations += 1;
+                        let r = guarded(|| Five::from([arr[0], arr[1], arr[2], arr[3], arr[4]]).hand_rank_value());
+                        if r != Some(v) {
+                            p.fail("value changes under a relabelling of the suits", &format!("{} relabelled {sp:?}", join(h.to_arr())), &v.to_string(), &format!("{r:?}"));
+                        }
+                    }
+                }
+            } } } }
+        }
+        p
+    });
+    for p in parts { s.merge(p); }
+    s.count("five-card hands x 3 shifts", 2_598_960 * 3);
+    // six and seven cards, seeded
+    let n_seeded: u64 = if thorough { 20_000_000 } else { 2_000_000 };
+    let parts: Vec<Sweep> = par_ranges(n_seeded, threads(), |lo, hi| {
+        let mut p = Sweep::default();
+        let mut rng = Rng::new(seed ^ lo ^ 0x8C08);
+        let mut idx: Vec<usize> = (0..52).collect();
+        for k in lo..hi {
+            rng.shuffle(&mut idx);
+            p.evaluations += 3;
+            if k % 2 == 0 {
+                let h = Six::from([deck[idx[0]], deck[idx[1]], deck[idx[2]], deck[idx[3]], deck[idx[4]], deck[idx[5]]]);
+                let v = h.hand_rank_value();
+                let (a, b) = (h.shift_suit(), h.shift_suit().shift_suit());
+                if a.hand_rank_value() != v || b.hand_rank_value() != v || b.shift_suit().hand_rank_value() != v {
+                    p.fail("six-card value changes under shifting", &join(h.to_arr()), &v.to_string(), &format!("{} {} {}", a.hand_rank_value(), b.hand_rank_value(), b.shift_suit().hand_rank_value()));
+                }
+            } else {
+                let h = Seven::from([deck[idx[0]], deck[idx[1]], deck[idx[2]], deck[idx[3]], deck[idx[4]], deck[idx[5]], deck[idx[6]]]);
+                let v = h.hand_rank_value();
+                let (a, b) = (h.shift_suit(), h.shift_suit().shift_suit());
+                if a.hand_rank_value() != v || b.hand_rank_value() != v || b.shift_suit().hand_rank_value() != v {
+                    p.fail("seven-card value changes under shifting", &join(h.to_arr()), &v.to_string(), &format!("{} {} {}", a.hand_rank_value(), b.hand_rank_value(), b.shift_suit().hand_rank_value()));
+                }
+            }
+        }
+        p
+    });
+    for p in parts { s.merge(p); }
+    s.count("seeded six/seven-card hands x 3 shifts", n_seeded);
+    s.nontrivial = s.evaluations;
+    s.rule = "52 cards + blank: the cycle and four-shift identity; sizes 2..7: container shift against slot-wise shift; every five-card hand under the three non-trivial shifts (all 24 suit relabellings in thorough); seeded six/seven-card hands under the three shifts".into();
+    s.sample(format!("AS.shift_suit() = {}", deck[0].shift_suit()));
     s
 }
